@@ -2,6 +2,8 @@ package lib
 
 import (
 	"fmt"
+	"runtime/debug"
+	"runtime/metrics"
 	"sort"
 	"strings"
 	"time"
@@ -94,6 +96,7 @@ type RunOutcome struct {
 	Err      string // "" when the run succeeded; the full error text otherwise
 	Panic    string // Go panic value recovered around VM.Run
 	TimedOut bool
+	MemGuard bool // aborted by the memory guard (TimedOut is set too)
 	Globals  map[string]string // canonical value per global name
 	SP       int
 	Steps    int
@@ -121,6 +124,21 @@ func (o RunOutcome) String() string {
 		sb.WriteString(" " + n + "=" + o.Globals[n])
 	}
 	return sb.String()
+}
+
+// memory guard of RunBytecode (see there)
+var memGuardBytes uint64 = 3 << 30
+
+// MemGuardHits counts the runs the memory guard aborted.
+var MemGuardHits int
+
+func heapBytes() uint64 {
+	s := []metrics.Sample{{Name: "/memory/classes/heap/objects:bytes"}}
+	metrics.Read(s)
+	if s[0].Value.Kind() != metrics.KindUint64 {
+		return 0
+	}
+	return s[0].Value.Uint64()
 }
 
 // RunOpts configures RunBytecode.
@@ -175,15 +193,44 @@ func RunBytecode(c *Compiled, o RunOpts) RunOutcome {
 			out.Err = err.Error()
 		}
 	}()
-	select {
-	case <-done:
-	case <-time.After(o.Timeout):
-		vm.Abort()
-		<-done
-		out.TimedOut = true
+	timer := time.NewTimer(o.Timeout)
+	tick := time.NewTicker(20 * time.Millisecond)
+wait:
+	for {
+		select {
+		case <-done:
+			break wait
+		case <-timer.C:
+			vm.Abort()
+			<-done
+			out.TimedOut = true
+			break wait
+		case <-tick.C:
+			// memory guard: a program that doubles a container in a loop can allocate tens of gigabytes within
+			// the timeout; such a run is treated like a timeout (skipped), it is not an outcome to compare
+			if heapBytes() > memGuardBytes {
+				vm.Abort()
+				<-done
+				out.TimedOut = true
+				out.MemGuard = true
+				MemGuardHits++
+				break wait
+			}
+		}
 	}
+	timer.Stop()
+	tick.Stop()
 	out.Steps = steps
 	out.SP, _, _ = vm.VerifState()
+	if out.MemGuard {
+		// the globals of such a run are not compared (and are huge)
+		for i := range globals {
+			globals[i] = nil
+		}
+		debug.FreeOSMemory()
+		out.Globals = map[string]string{}
+		return out
+	}
 	last := -1
 	for i, g := range globals {
 		if g != nil {
